@@ -205,7 +205,7 @@ def fail(sub, case, msg):
     raise Violation(sub, case, msg)
 
 
-def check_state(case, real, exp, stage, acc):
+def check_state(case, real, exp, stage, acc, extra_rhs=()):
     """exp: list of expected UTC instants in insertion order (point i carries tag i=str(i))."""
     from tinyflux import TagQuery, TimeQuery
 
@@ -255,8 +255,8 @@ def check_state(case, real, exp, stage, acc):
             if got != want:
                 fail("time-query", case, "%s Time.%s selects %s, instants say %s; stored %s" % (where, label, got, want, [x.isoformat() for x in exp]))
             acc.ev()
-    for r in case["rhs"]:
-        rv = build(r)
+    for r in list(case["rhs"]) + list(extra_rhs):
+        rv = build(r) if isinstance(r, dict) else r
         # instants are compared in UTC: Python's own == between zones is special-cased (never equal) for times inside a DST fold
         rv_utc = rv.astimezone(UTC)
         for name, f in ops.items():
@@ -350,12 +350,18 @@ def run_case(case, ctx, acc):
                     check_state(case, real, exp, "after-reopen", acc)
                 # a point without a time receives the insertion time
                 before = datetime.now(UTC)
-                real.db.insert(Point())
+                bare = Point()  # (Point(tags=...) would take the time of its construction; a bare Point has none)
+                bare.tags = {"i": str(len(exp))}
+                real.db.insert(bare)
                 after = datetime.now(UTC)
                 t = real.db.all(sorted=False)[-1].time
                 if not (before <= t <= after) or t.utcoffset() != timedelta(0):
                     fail("stamp", case, "[%s] point without time was stamped %r, inserted between %r and %r" % (real.name, t, before, after))
                 acc.ev()
+                # "now" is not necessarily the latest instant (forecast data): order, get_timestamps and time queries once more
+                check_state(case, real, exp + [t], "after-stamped-insert", acc, extra_rhs=[t, t + timedelta(days=1), t - timedelta(microseconds=1)])
+                if any(x > t for x in exp):
+                    acc.cls("stamped_insert_before_future_points")
             finally:
                 real.close()
     finally:
